@@ -18,6 +18,10 @@ type c06Msg struct {
 	name string
 	s    *ref.Struct
 	v    *ref.Val
+	// wire, when set, is sent instead of the encoding of v; fail: the decode must be REJECTED - the
+	// application keeps the partly filled object all the same, and its memory stays its own
+	wire []byte
+	fail bool
 }
 
 var c06Cache []c06Msg
@@ -49,7 +53,7 @@ func c06Alphabet() []c06Msg {
 		v.F[1], v.F[2], v.F[3], v.F[4], v.F[5] = ref.Int(ref.KI16, 0x0102), ref.Int(ref.KI32, 0x01020304), ref.Int(ref.KI64, 0x0102030405060708), ref.Double(1.5), ref.Bool(true)
 		v.F[6] = ref.Str(rep(n + 2))
 		v.F[7] = ref.Bin([]byte(rep(7)))
-		out = append(out, c06Msg{fmt.Sprintf("mix(str%d)", n), mix, v})
+		out = append(out, c06Msg{name: fmt.Sprintf("mix(str%d)", n), s: mix, v: v})
 	}
 	// scalar lists around the direct-allocation threshold (256 bytes)
 	for _, k := range []ref.Kind{ref.KI16, ref.KI32, ref.KI64} {
@@ -62,13 +66,13 @@ func c06Alphabet() []c06Msg {
 			for i := 0; i < n; i++ {
 				lv.L = append(lv.L, universe.Nth(sc(k), i))
 			}
-			out = append(out, c06Msg{fmt.Sprintf("list<%s>[%d]", k, n), lt, &ref.Val{K: ref.KStruct, F: []*ref.Val{lv, ref.Str("x")}}})
+			out = append(out, c06Msg{name: fmt.Sprintf("list<%s>[%d]", k, n), s: lt, v: &ref.Val{K: ref.KStruct, F: []*ref.Val{lv, ref.Str("x")}}})
 		}
 	}
 	// strings around the block threshold
 	st := mk(fd(1, D, sc(ref.KString)), fd(2, D, sc(ref.KBinary)), fd(3, D, universe.ListOf(sc(ref.KString))))
 	for _, n := range []int{256, 2047, 2048, 2049} {
-		out = append(out, c06Msg{fmt.Sprintf("strings(%d)", n), st, &ref.Val{K: ref.KStruct, F: []*ref.Val{ref.Str(rep(n)), ref.Bin([]byte(rep(n / 2))), ref.List(ref.KList, ref.Str(rep(3)), ref.Str(rep(300)), ref.Str(""))}}})
+		out = append(out, c06Msg{name: fmt.Sprintf("strings(%d)", n), s: st, v: &ref.Val{K: ref.KStruct, F: []*ref.Val{ref.Str(rep(n)), ref.Bin([]byte(rep(n / 2))), ref.List(ref.KList, ref.Str(rep(3)), ref.Str(rep(300)), ref.Str(""))}}})
 	}
 	// pointers to structs in lists and maps, unknown-field holders, nocopy
 	in := mk(fd(1, D, sc(ref.KI16)), fd(2, O, ptrTo(sc(ref.KI64))), fd(3, D, sc(ref.KString)))
@@ -78,7 +82,7 @@ func c06Alphabet() []c06Msg {
 	pv := c11Value(ps, 4)
 	pv.Unk = unknownSamples[2]
 	pv.F[0].L[0].Unk = unknownSamples[0]
-	out = append(out, c06Msg{"pointers+maps+holders", ps, pv})
+	out = append(out, c06Msg{name: "pointers+maps+holders", s: ps, v: pv})
 	lh := universe.LeafHolder()
 	hs := mk(fd(1, D, universe.StPtr(lh)), fd(2, D, universe.ListOf(universe.StPtr(lh))), fd(3, D, universe.ListOf(universe.StVal(lh))), fd(4, D, universe.MapOf(sc(ref.KI32), universe.StPtr(lh))))
 	hv := c11Value(hs, 2)
@@ -87,10 +91,10 @@ func c06Alphabet() []c06Msg {
 	hv.F[1].L[1].Unk = unknownSamples[0]
 	hv.F[2].L[0].Unk = unknownSamples[0]
 	hv.F[3].M[0][1].Unk = unknownSamples[1]
-	out = append(out, c06Msg{"fixed-size-holder-structs", hs, hv})
+	out = append(out, c06Msg{name: "fixed-size-holder-structs", s: hs, v: hv})
 	nc := mk(fd(1, D, sc(ref.KString)), fd(2, D, sc(ref.KBinary)), fd(3, D, sc(ref.KString)), fd(4, O, ptrTo(sc(ref.KI32))))
 	nc.Fields[0].NoCopy, nc.Fields[1].NoCopy = true, true
-	out = append(out, c06Msg{"nocopy+plain", nc, &ref.Val{K: ref.KStruct, F: []*ref.Val{ref.Str(rep(9)), ref.Bin([]byte(rep(300))), ref.Str(rep(11)), ref.Int(ref.KI32, 5)}}})
+	out = append(out, c06Msg{name: "nocopy+plain", s: nc, v: &ref.Val{K: ref.KStruct, F: []*ref.Val{ref.Str(rep(9)), ref.Bin([]byte(rep(300))), ref.Str(rep(11)), ref.Int(ref.KI32, 5)}}})
 	// empty containers: every decoded object owns its own (empty) maps and slices
 	em := mk(fd(1, D, universe.MapOf(sc(ref.KString), sc(ref.KI32))), fd(2, D, universe.MapOf(sc(ref.KI32), universe.StPtr(in))), fd(3, D, universe.ListOf(sc(ref.KI32))),
 		fd(4, D, sc(ref.KBinary)), fd(5, D, universe.MapOf(sc(ref.KString), sc(ref.KI32))), fd(6, D, universe.SetOf(sc(ref.KString))))
@@ -98,7 +102,19 @@ func c06Alphabet() []c06Msg {
 	eo := mk(fd(1, D, universe.ListOf(universe.StPtr(em))), fd(2, D, universe.StVal(em)), fd(3, D, universe.MapOf(sc(ref.KI32), universe.MapOf(sc(ref.KString), sc(ref.KI32)))))
 	eov := &ref.Val{K: ref.KStruct, F: []*ref.Val{ref.List(ref.KList, emv, emv), emv,
 		{K: ref.KMap, M: [][2]*ref.Val{{ref.Int(ref.KI32, 1), {K: ref.KMap}}, {ref.Int(ref.KI32, 2), {K: ref.KMap}}}}}}
-	out = append(out, c06Msg{"empty-containers", eo, eov})
+	out = append(out, c06Msg{name: "empty-containers", s: eo, v: eov})
+	// rejected messages whose partly decoded object the caller keeps: complete but lacking a required field
+	// (the error comes after everything was stored), and truncated in its last field
+	{
+		R := ref.ReqRequired
+		rq := mk(fd(1, D, sc(ref.KString)), fd(2, D, universe.ListOf(sc(ref.KI64))), fd(3, D, sc(ref.KBinary)), fd(4, O, ptrTo(sc(ref.KI32))), fd(5, D, universe.StPtr(in)), fd(9, R, sc(ref.KI32)))
+		wr := mk(fd(1, D, sc(ref.KString)), fd(2, D, universe.ListOf(sc(ref.KI64))), fd(3, D, sc(ref.KBinary)), fd(4, O, ptrTo(sc(ref.KI32))), fd(5, D, universe.StPtr(in)))
+		wv := &ref.Val{K: ref.KStruct, F: []*ref.Val{ref.Str(rep(40)), ref.List(ref.KList, ref.Int(ref.KI64, 1), ref.Int(ref.KI64, 2), ref.Int(ref.KI64, 3)), ref.Bin([]byte(rep(33))), ref.Int(ref.KI32, 9), c11Value(in, 2)}}
+		w := ref.Encode(wr, wv)
+		out = append(out, c06Msg{name: "rejected:required-field-missing-at-the-end", s: rq, v: wv, wire: w, fail: true})
+		full := append(append([]byte{}, w[:len(w)-1]...), ref.WI32, 0, 9, 0, 0, 0, 1, 0)
+		out = append(out, c06Msg{name: "rejected:truncated-in-the-last-field", s: rq, v: wv, wire: full[:len(full)-3], fail: true})
+	}
 	// one decode that rolls the sub-allocator's block over many times with mixed alignments
 	many := mk(fd(1, D, universe.ListOf(sc(ref.KString))), fd(2, D, universe.ListOf(universe.ListOf(sc(ref.KI16)))), fd(3, D, universe.MapOf(sc(ref.KString), universe.ListOf(sc(ref.KI64)))))
 	mv := &ref.Val{K: ref.KStruct, F: []*ref.Val{{K: ref.KList}, {K: ref.KList}, {K: ref.KMap}}}
@@ -113,14 +129,14 @@ func c06Alphabet() []c06Msg {
 			mv.F[2].M = append(mv.F[2].M, [2]*ref.Val{ref.Str(rep(2+i%5) + fmt.Sprint(i)), ref.List(ref.KList, ref.Int(ref.KI64, int64(i)))})
 		}
 	}
-	out = append(out, c06Msg{"many-small-allocations", many, mv})
+	out = append(out, c06Msg{name: "many-small-allocations", s: many, v: mv})
 	// nested structs whose default initialiser provides a non-nil list: each decoded struct owns its copy
 	dps, dpo := universe.DPSpecs()
 	dv := ref.ZeroStruct(dpo)
 	dv.F[0] = ref.InitStruct(dps)
 	dv.F[0].F[5] = ref.InitStruct(dps)
 	dv.F[1] = &ref.Val{K: ref.KMap, M: [][2]*ref.Val{{ref.Int(ref.KI32, 1), ref.InitStruct(dps)}, {ref.Int(ref.KI32, 2), ref.InitStruct(dps)}}}
-	out = append(out, c06Msg{"nested-default-containers", dpo, dv})
+	out = append(out, c06Msg{name: "nested-default-containers", s: dpo, v: dv})
 	c06Cache = out
 	return out
 }
@@ -170,8 +186,15 @@ var c06EncCache = map[string][2]string{}
 func c06Encoded(m c06Msg) ([]byte, string) {
 	e, ok := c06EncCache[m.name]
 	if !ok {
-		enc := ref.Encode(m.s, m.v)
-		e = [2]string{string(enc), ref.Decode(m.s, enc, nil, ref.DecOpts{}).V.Canon()}
+		if m.fail {
+			if ref.Decode(m.s, m.wire, nil, ref.DecOpts{}).OK {
+				panic("harness error: the reference accepts the message meant to be rejected: " + m.name)
+			}
+			e = [2]string{string(m.wire), ""}
+		} else {
+			enc := ref.Encode(m.s, m.v)
+			e = [2]string{string(enc), ref.Decode(m.s, enc, nil, ref.DecOpts{}).V.Canon()}
+		}
 		c06EncCache[m.name] = e
 	}
 	return []byte(e[0]), e[1]
@@ -236,7 +259,11 @@ func c06Body(c *explore.C, maxLen int) {
 		cs := func(class string, d interface{}) *harness.Case {
 			return &harness.Case{Property: "C06", Class: class, Type: m.s.String(), Detail: map[string]interface{}{"history": hist, "detail": d}}
 		}
-		if r.Panic != nil || r.Err != nil || r.N != len(enc) {
+		if m.fail && (r.Panic != nil || r.Err == nil) {
+			c.Fail(fmt.Sprintf("decode %d (%s) must be rejected with an error: %v", i+1, m.name, r), cs("malformed-accepted", r.String()))
+			return
+		}
+		if !m.fail && (r.Panic != nil || r.Err != nil || r.N != len(enc)) {
 			c.Fail(fmt.Sprintf("decode %d (%s) of a valid message failed: %v", i+1, m.name, r), cs("decode-failed", r.String()))
 			return
 		}
@@ -247,7 +274,7 @@ func c06Body(c *explore.C, maxLen int) {
 		lv := &c06Live{msg: m, dst: dst, input: in, nocopy: hasNocopy}
 		lv.snap = universe.ReadStruct(m.s, dst.Elem()).Canon()
 		reused := i > 0 && acts[i-1] == 5 && len(live) > 0 && live[len(live)-1].msg.s == m.s
-		if lv.snap != expCanon && !reused {
+		if !m.fail && lv.snap != expCanon && !reused {
 			c.Fail(fmt.Sprintf("decode %d (%s) yields a wrong value", i+1, m.name), cs("value-mismatch", nil))
 			return
 		}
